@@ -7,6 +7,7 @@ import (
 	"os"
 	"path/filepath"
 	"strings"
+	"time"
 
 	"github.com/wmnsk/go-pfcp/ie"
 	"github.com/wmnsk/go-pfcp/message"
@@ -29,8 +30,9 @@ type IDParams struct {
 	AgentBin string `json:"agentBin"`
 	N4Addr   string `json:"n4"`
 	Seed     int64  `json:"seed"`
-	Mode     string `json:"mode"` // seid | teid | burst
+	Mode     string `json:"mode"` // seid | seidgen | teid | burst
 	Rounds   int    `json:"rounds"`
+	Scripts  string `json:"scripts"` // mode seidgen: file with the source prefixes TLC generated from SeidScript.tla
 }
 
 func simpleSession(cp uint64, ue uint32, nChoose int) *e2e.SessReq {
@@ -168,6 +170,75 @@ func e2eIDsWorker(args []string) error {
 			_ = set("SEIDS")
 			sum.Stats["seid_round"]++
 		}
+	case "seidgen":
+		// GEN: every prefix of the random source over {0, live 1, live 2, deleted, fresh}
+		// that TLC enumerated from spec/SeidScript.tla, one establishment each
+		var scripts [][]string
+
+		if b, err := os.ReadFile(p.Scripts); err != nil || json.Unmarshal(b, &scripts) != nil {
+			sum.Err = "cannot read the generated source prefixes"
+			return nil
+		}
+
+		w.Assoc("p1")
+		w.Assoc("p2")
+
+		val := map[string]uint64{"0": 0}
+		mk := func(peer string, v uint64) uint64 {
+			if set(seidList(v)) != nil {
+				return 0
+			}
+
+			c1, u1 := next()
+
+			return up(w.Estab(peer, simpleSession(c1, u1, 1)))
+		}
+
+		val["L1"], val["L2"], val["D"] = mk("p1", rng.Uint64()|1), mk("p1", rng.Uint64()|1), mk("p1", rng.Uint64()|1)
+		other := mk("p2", rng.Uint64()|1) // another association's session is not disturbed
+
+		if val["L1"] == 0 || val["L2"] == 0 || val["D"] == 0 || other == 0 || w.Died {
+			sum.Err = "seidgen: the sessions of the fixture were not accepted"
+			return nil
+		}
+
+		w.Del("p1", &e2e.SessReq{Hdr: val["D"]})
+
+		for _, sc := range scripts {
+			if w.Died {
+				break
+			}
+
+			vs := make([]uint64, 0, len(sc)+1)
+			for _, x := range sc {
+				if x == "F" {
+					vs = append(vs, rng.Uint64()|1)
+				} else {
+					vs = append(vs, val[x])
+				}
+			}
+
+			_ = set(seidList(append(vs, rng.Uint64()|1)...)) // the source goes on with a fresh value
+			c1, u1 := next()
+			s := up(w.Estab("p1", simpleSession(c1, u1, 1)))
+
+			// the fixture stays as it is: the new session goes again (unless it took the place of a live one - a violation
+			// that the recorded establishment shows)
+			if s != 0 && s != val["L1"] && s != val["L2"] {
+				w.Del("p1", &e2e.SessReq{Hdr: s})
+			}
+
+			sum.Stats["seid_script"]++
+		}
+
+		// the fixture still works
+		for _, k := range []string{"L1", "L2"} {
+			w.Mod("p1", &e2e.SessReq{Hdr: val[k], UFAR: []pfcpx.FAR{{ID: 2, Action: 2, HasFP: true, Dst: "access", OHC: true, PeerIP: 0xC0A80001, TEID: 77}}})
+			w.Del("p1", &e2e.SessReq{Hdr: val[k]})
+		}
+
+		w.Del("p2", &e2e.SessReq{Hdr: other})
+		_ = set("SEIDS")
 	case "teid":
 		w.Assoc("p1")
 
@@ -195,6 +266,12 @@ func e2eIDsWorker(args []string) error {
 			_ = set(fmt.Sprintf("TEIDCURSOR %d", uint32(0xFFFFFFFD)))
 			c1, u1 := next()
 			ss = append(ss, up(w.Estab("p1", simpleSession(c1, u1, 3))))
+
+			// more CHOOSE PDRs in one request than the agent's rule lists are created with room for (10): around that size
+			for _, n := range []int{9, 10, 11, 12 + rng.Intn(12)} {
+				c1, u1 = next()
+				ss = append(ss, up(w.Estab("p1", simpleSession(c1, u1, n))))
+			}
 
 			for _, s := range ss {
 				if s != 0 {
@@ -255,6 +332,31 @@ func C07(c *core.Ctx) {
 	}
 
 	var specs []func(i int) (string, interface{})
+
+	// GEN: TLC enumerates the prefixes of the random source (spec/SeidScript.tla, with the design-level check of the draw loop)
+	scripts := filepath.Join(c.Scratch, "seidscripts.json")
+	genCfg := "MCSeidScript.cfg"
+
+	if c.Thorough() {
+		genCfg = "MCSeidScript4.cfg"
+	}
+
+	if c.ReplayDir == "" {
+		gr, err := c.RunTLC(core.TLCRun{Module: "SeidScript", Cfg: genCfg, Workers: 1, HeapMB: 1024, Timeout: 5 * time.Minute, Label: "gen"})
+		if err != nil || !gr.OK() {
+			c.Inconclusive("GEN: TLC did not enumerate the source prefixes of SeidScript (or its design-level invariant failed)")
+		} else if n, err := writeScripts(gr.OutputPath, scripts); err != nil || n == 0 {
+			c.Inconclusive("GEN: no source prefixes in TLC's output: %v", err)
+		} else {
+			c.AddCount("gen_scripts", int64(n))
+			c.AddTLC("gen", gr)
+
+			specs = append(specs, func(i int) (string, interface{}) {
+				dir, trace := shardDir(c, i)
+				return "e2e-ids", IDParams{Dir: dir, Trace: trace, AgentBin: filepath.Join(c.BinDir, "verif-agent"), N4Addr: n4For(i), Seed: c.Seed*1000 + 290, Mode: "seidgen", Scripts: scripts}
+			})
+		}
+	}
 
 	for _, m := range []string{"seid", "teid", "burst", "burst"} {
 		m := m
